@@ -752,7 +752,7 @@ Example c15_nonvacuous_confidence :
   num_value [45; 49; 50; 46; 53; 48; 69; 43; 48; 51] = Some (true, 1250, 1) /\
   exists d, C19.Model.confidence_bits d = 1048576000 /\ render_f32 (C19.Model.confidence_bits d) = [48; 46; 50; 53].
 Proof.
-  vm_compute. repeat (split; [reflexivity|]).
+  repeat (split; [vm_compute; reflexivity|]).
   exists {| C19.Model.d_nc := false; C19.Model.d_null := false; C19.Model.d_low := false; C19.Model.d_nearby := 0; C19.Model.d_poison := false |}.
   vm_compute. split; reflexivity.
 Qed.
